@@ -199,6 +199,13 @@ func runOne(pc paceCase) result {
 	if pc.ChipWrongPwd {
 		chip.PACE.Passwords = map[int][]byte{1: refchip.PasswordFromMRZInfo("X" + info[1:]), 2: []byte("502918")}
 	}
+	if strings.HasPrefix(pc.Dev, "nopwd-follow/") {
+		// a device without the password that follows the protocol with an encrypted nonce of pc.Bit octets (all zero),
+		// assuming the nonce VALUE zero
+		z := make([]byte, pc.Bit)
+		chip.PACE.NoPwdNonce = &z
+		chip.PACE.Passwords = map[int][]byte{1: refchip.PasswordFromMRZInfo("X" + info[1:]), 2: []byte("502918")}
+	}
 	advs := pc.Advert
 	if advs == nil {
 		advs = []advert{{Mapping: mapping, Cipher: pc.Cipher, ParamID: pc.ParamID}}
@@ -668,6 +675,16 @@ hostile:
 				pc.Dev, pc.Bit = "malformed/"+k, msg
 				do(sec3, pc, fmt.Sprintf("%s/malformed/%d/%s", lab, msg, k))
 			}
+		}
+		// a device without the password that follows the protocol honestly on a guessed nonce value (zero), for
+		// every length of the encrypted nonce it may send: none of them may be accepted
+		for _, zl := range []int{0, 1, 8, 15, 16, 17, 24, 32, 48} {
+			if !c.Mine() {
+				continue
+			}
+			pc := base
+			pc.Dev, pc.Bit = "nopwd-follow/encrypted-nonce-octets", zl
+			do(sec3, pc, fmt.Sprintf("%s/nopwd-follow/%d", lab, zl))
 		}
 		// a device without the password: complete product of its answer options
 		for _, mk := range []string{"echo", "G", "2G"} {
